@@ -313,8 +313,10 @@ def body(chk):
             run_lane(chk, Mutation, (si, 2), bounds={'skeleton': SKELETONS[si][0], 'symbolic positions': 'every pair of positions, all 65536 values'}, selftest=False)
     lv = 600 if quick else 1500
     run_lane(chk, RecursionDepth, (lv, 2), bounds={'nested TLVs': lv, 'symbolic identifier octets': 2, 'safe depth': RecursionDepth.SAFE, 'native nesting replay': '400000 levels (< 1 MB)'}, selftest=False)
+    from . import driver
+    run_lane(chk, driver.DriverStep, ('C11', 1, 1), bounds={'driver step': 'a response with any ID and any operation tag <= 30 (incl. unexpected operations for a search ID), or a receive/decode error'}, selftest=False, need_regions=('resp', 'resp-err'))
     chk.assumptions += [
-        'decoder part of C11 only: the driver reaction (unknown operation for a search ID, error propagation to pending operations) needs lane B3',
+        'decoder part + driver reaction (lane B3, one iteration): the driver reaction (unknown operation for a search ID, error propagation to pending operations) needs lane B3',
         'the SearchResultDone conversion the driver performs itself (LdapResult::from) is run on every decoded tag-5 operation',
         'arbitrary lane: every byte string up to the stated length; mutation lane: 1 (2) fully symbolic byte(s) at every position of each valid skeleton',
         'stack exhaustion is shown by the recursion-depth measurement on symbolic input plus a native replay in a child process',
